@@ -154,11 +154,46 @@ def spec_sd_ok(scs):
 
 def one_case(rep, cs, seed, i, exhaustive_spec=None):
     rng = rng_for(seed, PID, i)
-    kind = rng.choice(["dag", "dag", "gen", "gen-nonsd"])
+    kind = rng.choice(["dag", "dag", "gen", "gen-nonsd", "one-sided", "one-sided"])
     if kind == "dag":
         vs = gen.VAR_SETS[rng.choice(["dense", "sparse", "big"])](rng.choice([1, 2, 3, 4]))
         a = random_dag(rng, vs, rng.randint(1, 7), K=rng.choice([1, 1, 2]), bias_valid=rng.choice([0.3, 0.7, 0.95]))
-        b = random_dag(rng, vs, rng.randint(1, 7), K=1, bias_valid=0.9)
+        vb = vs if rng.random() < 0.5 else gen.VAR_SETS[rng.choice(["dense", "sparse", "big"])](rng.choice([2, 3, 4, 5]))
+        b = random_dag(rng, vb, rng.randint(1, 9), K=1, bias_valid=0.95)
+    elif kind == "one-sided":
+        # one circuit factorizes a scope in two different ways, the other never factorizes that scope at all:
+        # the pair must be reported incompatible whichever argument comes first
+        allv = gen.VAR_SETS[rng.choice(["dense", "sparse", "big"])](rng.choice([3, 4, 4, 5]))
+        def split_prod(vs_):
+            vs_ = list(vs_)
+            rng.shuffle(vs_)
+            k = rng.randint(1, len(vs_) - 1)
+            parts = [vs_[:k], vs_[k:]]
+            ls, ins_ = [], {}
+            tops = []
+            for part in parts:
+                if len(part) == 1:
+                    l = emb(part[0], 1)
+                    ls.append(l)
+                else:
+                    es = [emb(v, 1) for v in part]
+                    l = L.HadamardLayer(1, arity=len(es))
+                    ls.extend(es)
+                    ls.append(l)
+                    ins_[l] = es
+                tops.append(l)
+            h = L.HadamardLayer(1, arity=2)
+            ls.append(h)
+            ins_[h] = tops
+            return ls, ins_, h
+        l1, i1, h1 = split_prod(allv)
+        l2, i2, h2 = split_prod(allv)
+        top = L.SumLayer(1, 1, arity=2, weight=sumw(1, 1, 2))
+        nonsd = Circuit(l1 + l2 + [top], {**i1, **i2, top: [h1, h2]}, [top])
+        sub = rng.sample(allv, rng.randint(2, len(allv) - 1))
+        ls, is_, hs = split_prod(sub)
+        small = Circuit(ls, is_, [hs])
+        a, b = (small, nonsd) if rng.random() < 0.5 else (nonsd, small)
     else:
         o = gen.random_opts(rng, kinds=["emb"], sd=(kind == "gen"))
         a, ga = gen.gen_circuit(rng, **o)
